@@ -434,6 +434,19 @@ MAP_UNITS4 = [
 
 TYPED_UNITS = [
     dict(id='T.KnownQualifierKey', kind='trait', name='KnownQualifierKey', file='purl/src/qualifiers/well_known.rs'),
+    dict(id='theory.tryfrom', kind='raw', text=_c.theory_text('tryfrom.rs')),
+    dict(id='U-qmap.try_get_typed', file=F, fn='try_get_typed', ctx=_Q, wrap='impl Qualifiers', properties=['C12', 'C04', 'C05', 'C14'],
+         contract="""        requires self.wf()
+        ensures
+            // absent (or undeclarable) key: nothing to convert
+            !(valid_key(Q::KEY@) && has_key(self.qualifiers@, lower_ascii_seq(Q::KEY@))) ==> r is Ok && r->Ok_0 is None,
+            // present: exactly one conversion of the stored text, its outcome passed through
+            valid_key(Q::KEY@) && has_key(self.qualifiers@, lower_ascii_seq(Q::KEY@)) ==>
+                exists|s: &'a str, x: Result<Q, Q::Error>|
+                    s@ == self.qualifiers@[pos_of(self.qualifiers@, lower_ascii_seq(Q::KEY@))].1@ && #[trigger] Q::try_from_rel(s, x)
+                    && match x { Ok(q) => r == Ok::<Option<Q>, Q::Error>(Some(q)), Err(e) => r == Err::<Option<Q>, Q::Error>(e) },""",
+         hints=[(r'self\.get\(Q::KEY\)', 'before', """        proof { lemma_has_pair_pos(self.qualifiers@, lower_ascii_seq(Q::KEY@)); }""")],
+         ),
     dict(id='U-qmap.insert_typed', file=F, fn='insert_typed', ctx=_Q, wrap='impl Qualifiers', properties=['C11', 'C06', 'C09'], ret=None,
          # documented panic: KEY must be a valid key  => precondition
          contract="""        requires old(self).wf(), valid_key(Q::KEY@)
